@@ -520,4 +520,201 @@ theorem step_cur (I : ObjIface σ) (s s' : State σ) (op : Op) (r : Res) (evs : 
           simp only []
           rw [(cleanupObjects_fdt I s stale.obj).1]; exact hinv
 
+
+/-! ### `objects_completed` ⊆ TOIs of the latest FDT after each FDT completion -/
+
+theorem updateCcLoop_keys (e : Option Int) (fs : List FileAbs) (c : List (Nat × CacheControl)) :
+    ∀ kc ∈ (updateCcLoop e fs c).1, ∃ v, (kc.1, v) ∈ c := by
+  induction fs generalizing c with
+  | nil => intro kc h; simp only [updateCcLoop] at h; exact ⟨kc.2, h⟩
+  | cons x xs ih =>
+    intro kc h
+    unfold updateCcLoop at h
+    simp only [] at h
+    split at h
+    · rename_i old hold
+      split at h
+      · simp only [] at h
+        obtain ⟨v, hv⟩ := ih _ kc h
+        rcases mem_ainsert hv with hv | hv
+        · injection hv with h1 _
+          exact ⟨old, by rw [h1]; exact alookup_mem hold⟩
+        · exact ⟨v, hv⟩
+      · exact ih _ kc h
+    · exact ih _ kc h
+
+theorem fdtCompleted_completed (I : ObjIface σ) (s s' : State σ) (id : Nat) (r : Res) (evs : List Ev)
+    (f : FdtRecv σ) (inst : FdtAbs) (files : List FileAbs)
+    (hf : alookup id s.fdtReceivers = some f) (hi : f.inst = some inst) (hfl : inst.files = some files)
+    (h : fdtCompleted I s id = .ok (s', r, evs)) :
+    ∀ kc ∈ s'.completed, kc.1 ∈ files.map FileAbs.toiParsed := by
+  unfold fdtCompleted at h
+  split at h
+  · cases h
+  · rw [hf] at h
+    simp only [] at h
+    split at h
+    · cases h
+    · simp only [Except.ok.injEq, Prod.mk.injEq] at h
+      obtain ⟨rfl, _, _⟩ := h
+      generalize hs0 : ({ s with fdtReceivers := aerase id s.fdtReceivers, fdtCurrent := f :: s.fdtCurrent } : State σ) = s0
+      have hcur0 : s0.fdtCurrent = f :: s.fdtCurrent := by subst hs0; rfl
+      have h1 := attachLatest_fdt I s0
+      generalize hs1 : (attachLatest I s0).1 = s1 at h1 ⊢
+      have hcur1 : s1.fdtCurrent = f :: s.fdtCurrent := by rw [h1.1, hcur0]
+      -- gc: only listed TOIs survive
+      have hgc : ∀ kc ∈ (gcObjectCompleted s1).completed, kc.1 ∈ files.map FileAbs.toiParsed := by
+        intro kc hkc
+        simp only [gcObjectCompleted, hcur1, hi, hfl] at hkc
+        have := (List.mem_filter.mp hkc).2
+        simpa using this
+      have hcur2 : (gcObjectCompleted s1).fdtCurrent = f :: s.fdtCurrent := by
+        rw [(gcObjectCompleted_fdt s1).1, hcur1]
+      have hupd : ∀ kc ∈ (updateCompletedCc (gcObjectCompleted s1)).1.completed,
+          kc.1 ∈ files.map FileAbs.toiParsed := by
+        intro kc hkc
+        simp only [updateCompletedCc, hcur2, hi, hfl] at hkc
+        obtain ⟨v, hv⟩ := updateCcLoop_keys _ _ _ kc hkc
+        exact hgc (kc.1, v) hv
+      intro kc hkc
+      split at hkc
+      · exact hupd kc hkc
+      · exact hupd kc hkc
+
+/-! ### cleanup releases what has timed out -/
+
+theorem mem_aerase_ne {α} {k : Nat} {l : List (Nat × α)} {x : Nat × α} (h : x ∈ aerase k l) : x.1 ≠ k := by
+  induction l with
+  | nil => simp [aerase] at h
+  | cons a r ih =>
+    obtain ⟨k', v'⟩ := a
+    by_cases hk : k' = k
+    · simp [aerase, hk] at h; exact ih h
+    · simp [aerase, hk] at h
+      rcases h with h | h
+      · rw [h]; exact hk
+      · exact ih h
+
+theorem removeObject_objects (I : ObjIface σ) (s : State σ) (t : Nat) :
+    ∀ x ∈ (removeObject I s t).1.objects, x ∈ s.objects ∧ x.1 ≠ t := by
+  intro x hx
+  unfold removeObject at hx
+  split at hx
+  · rename_i hnone
+    refine ⟨hx, fun h => ?_⟩
+    -- the key is not in the list at all
+    have : ∀ (l : List (Nat × σ)), alookup t l = none → x ∈ l → x.1 ≠ t := by
+      intro l
+      induction l with
+      | nil => intro _ hm; simp at hm
+      | cons a r ih =>
+        obtain ⟨k', v'⟩ := a
+        intro hn hm
+        by_cases hk : k' = t
+        · simp [alookup, hk] at hn
+        · simp [alookup, hk] at hn
+          rcases List.mem_cons.mp hm with hm | hm
+          · rw [hm]; exact hk
+          · exact ih hn hm
+    exact this _ hnone hx h
+  · exact ⟨mem_aerase hx, mem_aerase_ne hx⟩
+
+theorem removeObjects_objects (I : ObjIface σ) (s : State σ) (l : List Nat) :
+    ∀ x ∈ (removeObjects I s l).1.objects, x ∈ s.objects ∧ x.1 ∉ l := by
+  induction l generalizing s with
+  | nil => intro x hx; exact ⟨hx, by simp⟩
+  | cons t ts ih =>
+    intro x hx
+    simp only [removeObjects] at hx
+    obtain ⟨h1, h2⟩ := ih _ x hx
+    obtain ⟨h3, h4⟩ := removeObject_objects I { s with errors := s.errors.filter (· ≠ t) } t x h1
+    exact ⟨h3, by simp only [List.mem_cons, not_or]; exact ⟨h4, h2⟩⟩
+
+/-- after `cleanup` with an object time-out configured no stalled object is left -/
+theorem cleanup_objects_released (I : ObjIface σ) (s s' : State σ) (now : Int) (stale : Stale)
+    (evs : List Ev) (h : cleanup I s now stale = .ok (s', evs)) (ht : s.cfg.objectTimeout = true) :
+    ∀ x ∈ s'.objects, stale.obj x.1 = false := by
+  unfold cleanup at h
+  simp only [] at h
+  split at h
+  · cases h
+  · rename_i s2 hc
+    simp only [Except.ok.injEq, Prod.mk.injEq] at h
+    obtain ⟨rfl, _⟩ := h
+    unfold cleanupFdt at hc
+    split at hc
+    · cases hc
+    · injection hc with hc; subst hc
+      intro x hx
+      simp only [] at hx
+      unfold cleanupObjects at hx
+      simp only [ht, not_true_eq_false, ↓reduceIte] at hx
+      obtain ⟨h1, h2⟩ := removeObjects_objects I s _ x hx
+      cases hst : stale.obj x.1 with
+      | false => rfl
+      | true =>
+        exfalso
+        apply h2
+        simp only [List.mem_filter, akeys, List.mem_map]
+        exact ⟨⟨x, h1, rfl⟩, hst⟩
+
+/-- after `cleanup` only `Complete` instances and `Receiving` instances that have not timed out are
+    left in `fdt_receivers` -/
+theorem cleanup_fdt_released (I : ObjIface σ) (s s' : State σ) (now : Int) (stale : Stale)
+    (evs : List Ev) (h : cleanup I s now stale = .ok (s', evs)) :
+    ∀ kf ∈ s'.fdtReceivers, kf.2.st = .complete ∨
+      (kf.2.st = .receiving ∧ ¬ (s.cfg.objectTimeout = true ∧ kf.2.obj.isSome = true ∧ stale.fdt kf.1 = true)) := by
+  unfold cleanup at h
+  simp only [] at h
+  split at h
+  · cases h
+  · rename_i s2 hc
+    simp only [Except.ok.injEq, Prod.mk.injEq] at h
+    obtain ⟨rfl, _⟩ := h
+    unfold cleanupFdt at hc
+    split at hc
+    · cases hc
+    · injection hc with hc; subst hc
+      intro kf hkf
+      simp only [] at hkf
+      have := (List.mem_filter.mp hkf).2
+      rw [(cleanupObjects_fdt I s stale.obj).2.2] at this
+      exact of_decide_eq_true this
+
+/-! ### D16: the `cleanup_fdt` of the unrepaired tree -/
+
+/-- `cleanup_fdt` before the repair (commit 6bdd56c): every `Receiving` instance is kept -/
+def cleanupFdtUnrepaired (s : State σ) (now : Int) : Rs (State σ) :=
+  match updateExpiredAll now s.fdtReceivers with
+  | .error w => .error w
+  | .ok l => .ok { s with fdtReceivers := l.filter (fun kf => kf.2.st = .complete ∨ kf.2.st = .receiving) }
+
+theorem updateExpiredAll_receiving (now : Int) :
+    ∀ (l l' : List (Nat × FdtRecv σ)), updateExpiredAll now l = .ok l' →
+      ∀ kf ∈ l, kf.2.st = .receiving → kf ∈ l' := by
+  intro l
+  induction l with
+  | nil => intro l' _ kf hkf; simp at hkf
+  | cons a r ih =>
+    intro l' h kf hkf hst
+    obtain ⟨k, f⟩ := a
+    unfold updateExpiredAll at h
+    split at h
+    · cases h
+    · rename_i f' hf'
+      split at h
+      · cases h
+      · rename_i r' hr'
+        injection h with h; subst h
+        rcases List.mem_cons.mp hkf with hkf | hkf
+        · subst hkf
+          simp only [] at hst
+          have : f.updateExpired now = .ok f := by
+            unfold FdtRecv.updateExpired
+            rw [if_pos (by rw [hst]; simp)]
+          rw [this] at hf'
+          injection hf' with hf'; subst hf'
+          simp
+        · exact List.mem_cons_of_mem _ (ih r' hr' kf hkf hst)
+
 end Flute.Recv
